@@ -8,6 +8,19 @@ from collections import Counter
 from harness import c09_lib as L
 
 
+BINARY_OPS = ["Add", "And", "BitShift", "BitwiseAnd", "BitwiseOr", "BitwiseXor", "Div", "Equal", "Greater",
+              "GreaterOrEqual", "Less", "LessOrEqual", "Mod", "Mul", "Or", "Pow", "PRelu", "Sub", "Xor"]
+
+
+def rule_expected(model_verdict: str, impl_answer: str) -> str:
+    """What the rule application must answer given the Lean verdict for the roles the code is SUPPOSED to
+    pass: `<op>:<side>:no` or `<op>:<side>:fired:<in0>,<in1>` with the operands in their original order."""
+    op, side, _ = impl_answer.split(":", 2)
+    if model_verdict in ("ok1", "ok2", "ok3"):
+        return f"{op}:{side}:fired:" + ("xin,yin" if side == "0" else "yin,xin")
+    return f"{op}:{side}:no"
+
+
 def _pair(rng, **kw):
     a = L.gen_shape(rng, **kw)
     return a, L.mutate_shape(rng, a, **kw)
@@ -66,6 +79,31 @@ def gen_helper_cases(rng, R: L.Real, n: int, stats: Counter):
             f"expandRemovable {L.enc_shape(ox)} {L.enc_shape(oy)} {L.enc_ints(const)} {L.enc_shape(eo)} {L.enc_shape(bo)}",
             lambda a=ox, b=oy, c=const, d=eo, f=bo: R.expand_removable(a, b, c, d, f),
         )
+        # ---- the rule objects themselves (which value plays which role, per side, per op family)
+        for _k in range(2):
+            rx = L.gen_shape(rng, max_rank=3)
+            ry = L.mutate_shape(rng, rx)
+            op = rng.choice(BINARY_OPS)
+            side = rng.choice([0, 1])
+            tkind = rng.choice(["c", "i", "i", "s"])
+            re_ = gen_expansion(rng, rx, ry)
+            if rng.random() < 0.35:
+                # an expansion that really changes the result: new leading dim or a stretched 1
+                re_ = [rng.choice(["K", 2, 5])] + list(re_) if rng.random() < 0.5 else [("K" if (isinstance(d, int) and d == 1) else d) for d in re_]
+            rconst = None
+            if tkind == "c":
+                rconst = [d if isinstance(d, int) else rng.choice(L.INTS) for d in re_]
+            reo = re_ if rng.random() < 0.5 else None
+            rbo = gen_bcast_like(rng, rx, ry) if rng.random() < 0.45 else None
+            if rng.random() < 0.03:
+                rx = None
+            use_set = rng.random() < 0.5
+            add(
+                "ruleExpandBinary",
+                f"expandRemovable {L.enc_shape(rx)} {L.enc_shape(ry)} {L.enc_ints(rconst)} {L.enc_shape(reo)} {L.enc_shape(rbo)}",
+                lambda op=op, side=side, a=rx, b=ry, tk=tkind, c=rconst, eo=reo, bo=rbo, us=use_set: (
+                    f"{op}:{side}:" + R.rule_expand_binary(op, side, a, b, tk, c, eo, bo, us)),
+            )
         # ---- evaluators
         s = L.gen_oshape(rng)
         st = rng.choice([0, 0, 0, 1, 2, -1, -2, 5, -7])
@@ -206,6 +244,9 @@ def branch_of(kind: str, answer: str) -> str:
         return kind + ":" + a.split(":")[0]
     if kind == "expandRemovable":
         return kind + ":" + a.split(":")[0]
+    if kind == "ruleExpandBinary":
+        p = a.split(":")
+        return kind + ":side" + p[1] + ":" + p[2]
     if kind in ("evConcat",):
         return kind + ":" + a.split(":")[0]
     if kind in ("materialize", "flatten", "merge", "bcastShape", "bcastDim", "getDim"):
